@@ -16,6 +16,11 @@ The trie *builder* of lm/search_trie.cc between the parsed ARPA n-grams and the 
 * `WriteEntries`: real entries whose key is the context of a real entry of the next order get `SetExtension`; a context that
   is no real entry is `FormatLoadException` ("… so this context must appear in the model …").
 
+* `<unk>`: when the ARPA has no `<unk>` unigram the builder runs on the zeroed slot 0 of the unigram file (`unkSlot`,
+  prob `+0.0`); `unknown_missing_logprob` is written only afterwards (`fixUnk`), so a blank whose newest word is `<unk>` is
+  computed from 0, not from −100 (the code's behaviour; deviation from the ARPA recursion = known finding
+  `blank-based-on-hallucinated-unk`).
+
 The merge/sort machinery is modelled by its result (the sorted, duplicate-free visit order; C16 `extSort_unique` is the
 theorem that any batching / merge order yields it); `Apply`'s sorted merge by set semantics (message ↦ record lookup).
 Float addition on bit patterns is the parameter `fadd` (driver: core `Float32`).
@@ -149,11 +154,40 @@ def buildTable (fadd : Nat → Nat → Nat) (order : Nat) (gs : List Gram) : Exc
         .ok { table := table, blanks := st.blanks,
               counts := (List.range order).map fun k => (table.filter fun p => p.1.length = k + 1).length }
 
-/-- the whole builder: search region of a `TrieModel` file at byte offset `start` -/
-def buildTrie (fadd : Nat → Nat → Nat) (order bound start : Nat) (gs : List Gram) : Except BuildErr Trie :=
+/-- the record `SortedFiles` leaves for `<unk>` when the ARPA has no `<unk>` unigram: the unigram file is `MapZeroedWrite` with
+one extra slot ("In case <unk> appears", trie_sort.cc:207-213), so slot 0 stays all-zero bytes: prob `+0.0`, back-off `+0.0`.
+This is what `FindBlanks::UnigramProb(0)` and the unigram `BackoffMessages::Apply` read while the builder runs. -/
+def unkSlot : Gram := ⟨[0], 0, 0⟩
+
+/-- `SortedFiles` on the n-grams of the ARPA file: slot 0 exists whether or not `<unk>` is listed; `(records, SawUnk())` -/
+def withUnkSlot (gs : List Gram) : List Gram × Bool :=
+  if gs.any (fun g => g.key == [0]) then (gs, true) else (unkSlot :: gs, false)
+
+/-- `GenericModel::InitializeFromARPA` *after* `search_.InitializeFromARPA` returned (model.cc:122-131):
+`if (!vocab_.SawUnk()) { unk.backoff = 0.0; unk.prob = config.unknown_missing_logprob; }` — `unk = some bits` in that case.
+The blanks were computed before, from the zeroed slot (known finding `blank-based-on-hallucinated-unk`). -/
+def fixUnk (unk : Option Nat) (T : BT) : BT :=
+  match unk with
+  | none => T
+  | some u => T.map fun e => if e.1 = [0] then (e.1, (u, plusZero)) else e
+
+/-- builder pass on the records of `SortedFiles` (slot 0 included), then the `<unk>` fix-up -/
+def buildTableU (fadd : Nat → Nat → Nat) (order : Nat) (gs : List Gram) (unk : Option Nat) : Except BuildErr Built :=
   match buildTable fadd order gs with
   | .error e => .error e
+  | .ok b => .ok { b with table := fixUnk unk b.table }
+
+/-- the whole builder: search region of a `TrieModel` file at byte offset `start`; `gs` are the records of `SortedFiles`
+(with the zeroed slot 0 if `<unk>` is missing, and then `unk = some unknown_missing_logprob`) -/
+def buildTrie (fadd : Nat → Nat → Nat) (order bound start : Nat) (gs : List Gram) (unk : Option Nat) : Except BuildErr Trie :=
+  match buildTableU fadd order gs unk with
+  | .error e => .error e
   | .ok b => .ok (ofTable b.table bound order start)
+
+/-- from the n-grams of the ARPA file (no `<unk>` record unless the file lists it) -/
+def buildTableArpa (fadd : Nat → Nat → Nat) (order : Nat) (gs : List Gram) (unkMissing : Nat) : Except BuildErr Built :=
+  let r := withUnkSlot gs
+  buildTableU fadd order r.1 (if r.2 then none else some unkMissing)
 
 /-- IEEE single addition on bit patterns (what `base[array][index] += backoff` does) -/
 def f32add (a b : Nat) : Nat := (Float32.ofBits a.toUInt32 + Float32.ofBits b.toUInt32).toBits.toNat
